@@ -666,7 +666,7 @@ func (r *c16Run) fail(clause, kind string, detail map[string]interface{}) {
 		// the run go on, so that the report can say what the follower ends up with
 		if r.soft == nil {
 			detail["observed"] = "at an intermediate quiescent point (a stop of the process here leaves the cache like this)"
-			v := mc.Violation(clause, fmt.Sprintf("C16:%s-transient:%s", kind, r.group()), detail)
+			v := mc.Violation(clause, r.sig(kind+"-transient"), detail)
 			r.soft = &v
 		}
 		return
@@ -675,8 +675,21 @@ func (r *c16Run) fail(clause, kind string, detail map[string]interface{}) {
 	if r.soft != nil {
 		detail["first_intermediate_violation"] = map[string]interface{}{"clause": r.soft.Clause, "detail": r.soft.Detail}
 	}
-	v := mc.Violation(clause, fmt.Sprintf("C16:%s:%s", kind, r.group()), detail)
+	v := mc.Violation(clause, r.sig(kind), detail)
 	r.viol = &v
+}
+
+// sig: which clause failed on which coarse shape. Two clauses name their shape themselves:
+// an empty snapshot nobody sent (whatever the caches were), and an incomplete snapshot left
+// behind by an interrupted transfer (a matter of the follower's cache back end).
+func (r *c16Run) sig(kind string) string {
+	switch kind {
+	case "phantom-snapshot":
+		return "C16:phantom-snapshot"
+	case "snapshot-incomplete":
+		return "C16:snapshot-incomplete:" + r.scn.Follower.Backend
+	}
+	return fmt.Sprintf("C16:%s:%s", kind, r.group())
 }
 
 func (r *c16Run) poll() {
